@@ -722,7 +722,20 @@ void vf_run(const uint8_t *data, size_t len)
         Table &t = T[i];
         // final audit through keyed lookups, then completion + clear (clear mid-rehash is C04's subject)
         if (t.has_buckets && !cx.c19) audit_all(t, K);
-        if (!cx.c04) { g_log.clear(); LIB(cstl_hash_rehash(&t.h)); }
+        if (!cx.c04 && !g_prop.empty()) {
+            // not C04's check: finish the rehash, erase the elements one by one (keyed ops), free the
+            // bucket array with a NULL callback; clear with a callback / mid-rehash is C04's subject
+            g_log.clear();
+            LIB(cstl_hash_rehash(&t.h));
+            std::vector<Elem *> all;
+            for (auto &kv : t.model) for (Elem *e : kv.second) all.push_back(e);
+            for (Elem *e : all) { LIB(cstl_hash_erase(&t.h, e)); P.kill(e); }
+            t.model.clear();
+            t.n = 0;
+            after_op(t);
+            LIB(cstl_hash_clear(&t.h, nullptr));
+            continue;
+        }
         ClearCtx cc{&t, {}, 0, false};
         for (auto &kv : t.model) for (Elem *e : kv.second) cc.expect.push_back(e);
         size_t n0 = t.n;
